@@ -50,7 +50,7 @@ OPS = ['def_m1', 'def_m2', 'def_m_none', 'def_m_empty', 'def_mg', 'def_special4'
        'file2_redefine', 'include_def_use', 'finalize', 'def_and_use_one_text', 'use_then_def_one_text',
        'def_gin_macro5', 'use_p_short_ref', 'use_r_uneval', 'def_m11_skip_unknown', 'def_ab_skip_list', 'def_a_prefix',
        'use_r_dictkey', 'use_r_dictkey_uneval', 'query_m', 'query_ab_value', 'file3_fails_midway', 'file3_repaired',
-       'use_q_tuple', 'use_r_two_dictkeys']
+       'use_q_tuple', 'use_r_two_dictkeys', 'unlock_redefine_m', 'call_consumer']
 TEXT = {
     'def_m1': 'm = 1', 'def_m2': 'm = 2', 'def_m_none': 'm = None', 'def_m_empty': "m = ''", 'def_mg': 'm = @c05.g()', 'def_special4': 'm/macro.value = 4',
     'def_gin_macro5': 'm/gin.macro.value = 5',
@@ -87,12 +87,15 @@ class World:
     self.params = {}      # param -> template: ('M', name) / list / ('U', name)
     self.locked = False
     self.hist = []
+    self._canon = None
 
   def ops(self):
     return OPS
 
   def canon(self):
-    return (harness.internal_state(),)
+    # (the state as it is right after the operation: the observations that follow call the consumer, and a history
+    #  replayed as a prefix does not contain them)
+    return self._canon if self._canon is not None else (harness.internal_state(),)
 
   def _model_apply(self, op):
     if op in ('def_m1', 'def_m2', 'def_special4', 'def_gin_macro5', 'def_m_none', 'def_m_empty'):
@@ -100,6 +103,8 @@ class World:
                           'def_m_empty': ''}[op]
     elif op == 'def_mg':
       self.macros['m'] = G
+    elif op == 'unlock_redefine_m':
+      self.macros['m'] = 21        # bound again inside unlock_config(): the very next use sees it, locked or not
     elif op == 'def_ab3':
       self.macros['a/b'] = 3
     elif op == 'use_p':
@@ -167,6 +172,10 @@ class World:
         self.locked = True
     elif op in ('query_m', 'query_ab_value'):
       pass
+    elif op == 'unlock_redefine_m':
+      self._model_apply(op)
+    elif op == 'call_consumer':
+      pass               # a use of the macros (part of the history: whatever a use leaves behind is there afterwards)
     elif self.locked:
       exp = 'RuntimeError'
     else:
@@ -179,6 +188,14 @@ class World:
         try:
           gin.query_parameter('%m' if op == 'query_m' else 'a/b/gin.macro.value')
         except ValueError:
+          pass
+      elif op == 'unlock_redefine_m':
+        with gin.unlock_config():
+          gin.parse_config('m = 21')
+      elif op == 'call_consumer':
+        try:
+          C()
+        except Exception:  # pylint: disable=broad-except
           pass
       elif op == 'file3_fails_midway':
         # the very same file name: first in a state that fails part-way (through an include), later repaired
@@ -207,6 +224,7 @@ class World:
       out = 'RuntimeError' if isinstance(e, RuntimeError) else 'ValueError'
     except Exception as e:  # pylint: disable=broad-except
       out = 'other:' + type(e).__name__
+    self._canon = (harness.internal_state(),)
     if res is None:
       return
     res.outcome('%s:%s' % (op, out))
